@@ -1312,8 +1312,13 @@ func (s *Session) output(seg *segment, remoteAddr net.Addr) error {
 	default:
 		return fmt.Errorf("unsupported transport protocol %v", s.transportProtocol)
 	}
-	seq, _ := seg.Seq()
-	s.lastSend.Store(seq)
+	// An ack segment doesn't take a sequence number of its own. It repeats
+	// the previous one, which can belong to a segment that is still waiting
+	// in the send queue, for example the close session request.
+	if !isAckProtocol(seg.metadata.Protocol()) {
+		seq, _ := seg.Seq()
+		s.lastSend.Store(seq)
+	}
 	s.lastTXTime.Store(time.Now().UnixMicro())
 	return nil
 }
